@@ -734,4 +734,165 @@ Section Theorems.
     Theorem ja_409 : conflict sch rq -> answer_status answer = Some 409%Z.
     Proof. intro H. apply status_in_singleton. rewrite ref_gates. apply conflict_409. assumption. Qed.
   End Gates.
+
+  (** *** linkage decoding: what the application's Patch receives *)
+  Definition answer_call (o : outcome) : option call := match o with Resp _ _ _ c => c | Panic => None end.
+
+  Lemma endpoint_of_relationship t id name :
+    endpoint_of sch (rq_path rq) = ERelationship t id name ->
+    exists ty seg, split_on 47 (trim_slash (rq_path rq)) = [ty; id; seg; name] /\
+                   lookup_type sch ty = Some t /\ bytes_eqb seg s_relationships = true.
+  Proof.
+    unfold endpoint_of. destruct (split_on 47 (trim_slash (rq_path rq))) as [|ty rest]; [discriminate|].
+    destruct (lookup_type sch ty) as [t0|] eqn:EL; [|discriminate].
+    destruct rest as [|a [|b0 [|c0 [|d0 rest]]]]; try discriminate.
+    destruct (bytes_eqb b0 s_relationships) eqn:Es; [|discriminate].
+    intro H; inversion H; subst. eauto.
+  Qed.
+
+  Lemma endpoint_of_resource t id :
+    endpoint_of sch (rq_path rq) = EResource t id ->
+    exists ty, split_on 47 (trim_slash (rq_path rq)) = [ty; id] /\ lookup_type sch ty = Some t.
+  Proof.
+    unfold endpoint_of. destruct (split_on 47 (trim_slash (rq_path rq))) as [|ty rest]; [discriminate|].
+    destruct (lookup_type sch ty) as [t0|] eqn:EL; [|discriminate].
+    destruct rest as [|a [|b0 [|c0 [|d0 rest]]]]; try discriminate.
+    - intro H; inversion H; subst. eauto.
+    - destruct (bytes_eqb b0 s_relationships); discriminate.
+  Qed.
+
+  Section Linkage.
+    Hypothesis Haccept : acceptable pmt (rq_accept rq) = true.
+    Hypothesis Hquery : forallb supported_parameter (rq_query rq) = true.
+
+    (** PATCH /{type}/{id}/relationships/{name}: an undecodable linkage document is a 400 and the
+        application is not called; otherwise Patch receives exactly {name: decoded linkage} *)
+    Theorem ja_linkage_relationship t id name p :
+      endpoint_of sch (rq_path rq) = ERelationship t id name -> rq_method rq = s_PATCH -> rt_patch t = Some p ->
+      match decode_body dec_relationship_data (rq_body rq) with
+      | None => answer_status answer = Some 400%Z /\ answer_call answer = None
+      | Some value => answer_call answer = Some (CPatch id [] [(name, value)])
+      end.
+    Proof.
+      intros Hep Hm Hp. destruct (endpoint_of_relationship _ _ _ Hep) as (ty & seg & Hs & Hl & Hseg).
+      destruct (execute_request_spec pmt choose Hchoose sch rq) as (r & E & W & _ & _).
+      unfold answer. rewrite (serve_http_eq _ _ _ _ _ E W). cbn [answer_status answer_call].
+      revert E. unfold execute_request. rewrite acceptable_eq, query_ok_eq, Haccept, Hquery. cbn [negb].
+      unfold route. rewrite Hs, Hl, Hseg, Hm.
+      replace (bytes_eqb s_PATCH s_GET) with false by reflexivity. rewrite bytes_eqb_refl.
+      destruct (decode_body dec_relationship_data (rq_body rq)) as [value|].
+      - unfold rt_patch_relationship. rewrite Hp. unfold relationship_response. cbn [r_id].
+        destruct (p id [] [(name, value)]) as [v| |e].
+        + destruct (complete_relationship t {| r_type := ty; r_id := id |} v name);
+            intro H; inversion H; subst; reflexivity.
+        + intro H; inversion H; subst; reflexivity.
+        + intro H; inversion H; subst; reflexivity.
+      - intro H; inversion H; subst. split; reflexivity.
+    Qed.
+
+    (** PATCH /{type}/{id}: Patch receives the attribute names and the decoded linkage of every
+        member of the document's relationships object *)
+    Theorem ja_linkage_resource t id p doc :
+      endpoint_of sch (rq_path rq) = EResource t id -> rq_method rq = s_PATCH -> rt_patch t = Some p ->
+      decode_body (dec_resource_request true) (rq_body rq) = Some doc -> pd_type doc = rt_name t -> pd_id doc = id ->
+      answer_call answer = Some (CPatch id (pd_attrs doc) (pd_rels doc)).
+    Proof.
+      intros Hep Hm Hp Hdec Ht Hi. destruct (endpoint_of_resource _ _ Hep) as (ty & Hs & Hl).
+      destruct (execute_request_spec pmt choose Hchoose sch rq) as (r & E & W & _ & _).
+      unfold answer. rewrite (serve_http_eq _ _ _ _ _ E W). cbn [answer_call].
+      revert E. unfold execute_request. rewrite acceptable_eq, query_ok_eq, Haccept, Hquery. cbn [negb].
+      unfold route. rewrite Hs, Hl, Hm.
+      replace (bytes_eqb s_PATCH s_GET) with false by reflexivity. rewrite bytes_eqb_refl.
+      unfold handle_patch_resource_request. rewrite Hdec. cbn [r_type r_id].
+      rewrite Ht, Hi, (lookup_type_name _ _ _ Hl), !bytes_eqb_refl. cbn [negb orb].
+      unfold rt_patch_resource. rewrite Hp. cbn [r_id].
+      destruct (completed choose t {| r_type := ty; r_id := id |} (p id (pd_attrs doc) (pd_rels doc)));
+        intro H; inversion H; subst; reflexivity.
+    Qed.
+  End Linkage.
+
 End Theorems.
+
+(** *** types.go:194-226 on the documents of the JSON:API text *)
+Definition identifier_object (r : rid) : json := JObj [(s_type, JStr (r_type r)); (s_id, JStr (r_id r))].
+
+Lemma dec_rid_identifier r : dec_rid (identifier_object r) = Some r.
+Proof. destruct r as [t i]. reflexivity. Qed.
+
+Lemma map_opt_identifiers ids : map_opt dec_rid (map identifier_object ids) = Some ids.
+Proof.
+  induction ids as [|r ids IH]; [reflexivity|]. cbn [map map_opt]. rewrite dec_rid_identifier, IH. reflexivity.
+Qed.
+
+(** {"data": null} clears, {"data": {type, id}} is a to-one linkage, {"data": [...]} a to-many linkage,
+    any other "data" is refused *)
+Theorem linkage_null : dec_relationship_data (JObj [(s_data, JNull)]) = Some LNull.
+Proof. reflexivity. Qed.
+Theorem linkage_to_one r : dec_relationship_data (JObj [(s_data, identifier_object r)]) = Some (LOne r).
+Proof. destruct r as [t i]. reflexivity. Qed.
+Theorem linkage_to_many ids : dec_relationship_data (JObj [(s_data, JArr (map identifier_object ids))]) = Some (LMany ids).
+Proof.
+  unfold dec_relationship_data. replace (get_field s_data [(s_data, JArr (map identifier_object ids))]) with
+    (Some (JArr (map identifier_object ids))) by reflexivity.
+  cbn [dec_linkage_value]. rewrite map_opt_identifiers. reflexivity.
+Qed.
+Theorem linkage_malformed v :
+  match v with JStr _ | JNum | JBool _ => True | _ => False end ->
+  dec_relationship_data (JObj [(s_data, v)]) = None.
+Proof. destruct v; intros []; reflexivity. Qed.
+
+(** ** Part 7: the three repaired defects, kept as witnesses against the pinned tree *)
+Definition toy_choose (l : list err) : err := hd {| e_status := [] |} l.
+Lemma toy_choose_ok : choose_ok toy_choose.
+Proof. intros e es. left. reflexivity. Qed.
+
+(** what mime.ParseMediaType answers on the strings used below: surrounding blanks are trimmed, the
+    bare JSON:API media type parses, a comma list is an error *)
+Fixpoint trim_left (s : bytes) : bytes :=
+  match s with
+  | c :: r => if N.eqb c 32 then trim_left r else s
+  | [] => []
+  end.
+Definition toy_pmt (s : bytes) : pm_result :=
+  if bytes_eqb (trim_left s) media_type then {| pm_type := media_type; pm_params := []; pm_err := false |}
+  else if bytes_eqb (trim_left s) (b "text/html") then {| pm_type := b "text/html"; pm_params := []; pm_err := false |}
+  else {| pm_type := []; pm_params := []; pm_err := true |}.
+
+(** one type "things" with one attribute; resource "1" has an unserialisable value (NaN), resource
+    "bad" fails with an error whose status is not a status code *)
+Definition toy_things : rtype :=
+  {| rt_name := b "things";
+     rt_attrs := [ {| ad_name := b "a"; ad_resolve := fun v => AVal (negb (N.eqb v 1)) |} ];
+     rt_rels := [ {| rd_name := b "one"; rd_resolver := ToOne true (fun _ => Ok (Some {| r_type := b "things"; r_id := b "2" |})) |};
+                  {| rd_name := b "many"; rd_resolver := ToMany false (fun _ => Ok []) None None |} ];
+     rt_get := Some (fun id => if bytes_eqb id (b "1") then HVal 1
+                               else if bytes_eqb id (b "bad") then HErr {| e_status := b "abc" |}
+                               else if bytes_eqb id (b "nil") then HNil
+                               else HVal 0);
+     rt_patch := Some (fun id _ _ => HVal 0);
+     rt_create := None;
+     rt_delete := None |}.
+Definition toy_schema : schema := [toy_things].
+Definition toy_request (m path : string) (accept : list bytes) (bd : body) : request :=
+  {| rq_method := b m; rq_path := b path; rq_accept := accept; rq_query := []; rq_body := bd |}.
+
+Definition pinned_fallback : config := {| fix_fallback := false; fix_accept_lists := true; fix_status := true |}.
+Definition pinned_accept : config := {| fix_fallback := true; fix_accept_lists := false; fix_status := true |}.
+Definition pinned_status : config := {| fix_fallback := true; fix_accept_lists := true; fix_status := false |}.
+
+(** (a) an attribute value that does not marshal: the body was a bare error object *)
+Lemma fallback_refuted_before_fix :
+  exists rq, serve_http pinned_fallback toy_pmt toy_choose toy_schema rq =
+             Resp 500 media_type (WBareError (b "500")) None.
+Proof. exists (toy_request "GET" "/things/1" [media_type] BNone). vm_compute. reflexivity. Qed.
+
+(** (b) a comma-separated Accept list offering the unmodified media type was answered 406 *)
+Lemma accept_list_refuted_before_fix :
+  exists rq, acceptable toy_pmt (rq_accept rq) = true /\
+             answer_status (serve_http pinned_accept toy_pmt toy_choose toy_schema rq) = Some 406%Z.
+Proof. exists (toy_request "GET" "/things/2" [b "text/html, application/vnd.api+json"] BNone). vm_compute. auto. Qed.
+
+(** (c) an error whose status is not an HTTP status code made WriteHeader panic *)
+Lemma status_refuted_before_fix :
+  exists rq, serve_http pinned_status toy_pmt toy_choose toy_schema rq = Panic.
+Proof. exists (toy_request "GET" "/things/bad" [media_type] BNone). vm_compute. reflexivity. Qed.
